@@ -1,6 +1,7 @@
 (* Props/C08.v — a disk stream behaves as an immutable byte array under any access history. *)
 From Coq Require Import ZArith List.
-From DH Require Model.Qcow2 Proofs.Qcow2 Spec.Qcow2.
+Import ListNotations.
+From DH Require Model.Qcow2 Proofs.Qcow2 Spec.Qcow2 Model.Vmdk Proofs.Vmdk.
 From DH Require Import Base.Plan Base.Table Model.AlignedStream Proofs.AlignedStream Model.Lru Proofs.Lru
   Proofs.StreamReaders Model.AlignedStreamB Proofs.AlignedStreamB Proofs.StreamBytes Model.Vhd Proofs.Vhd Model.Vdi Proofs.Vdi Model.Vhdx Proofs.Vhdx Model.Hds Proofs.Hds.
 Open Scope Z_scope.
@@ -124,3 +125,13 @@ Theorem C08_qcow2_backend :
     (blen_of (fun off len => Model.Qcow2.qcow2_read im (S (Z.to_nat (Z.min len (Model.Qcow2.size_of im - off)))) off len)).
 Proof. intros im a H1 H2 H3. exact (contract_backend_ok _ _ _ _ (qcow2_contract im a H1 H2 H3)). Qed.
 Print Assumptions C08_qcow2_backend.
+
+(* VMDK sparse extents (hosted, COWD, SE-sparse), any grain directory / tables, single-extent disk *)
+Theorem C08_vmdk_backend :
+  forall (f : Model.Vmdk.vfile) (sp : Model.Vmdk.sparse) hp align,
+  Proofs.Vmdk.wf_sparse f sp -> 0 < align -> align mod 512 = 0 ->
+  backend_ok (Model.Vmdk.sp_capacity sp * 512) align
+    (blen_of (fun off len => match Model.Vmdk.vmdk_read (Model.Vmdk.mk_vmdk [Model.Vmdk.XSparse f sp hp]) off len with
+                             | Ok p => Ok (Model.Vmdk.plan_of_x p) | Err => Err | Fuel => Fuel end)).
+Proof. intros f sp hp a H1 H2 H3. exact (contract_backend_ok _ _ _ _ (vmdk_sparse_contract f sp hp a H1 H2 H3)). Qed.
+Print Assumptions C08_vmdk_backend.
